@@ -45,7 +45,19 @@ func (g *Gen) verifyFunc(fc *FuncContract) (*VC, error) {
 	}
 	for i, p := range fn.Params {
 		n := sym("in." + p.Name())
-		vc.declare(n, vc.d.sortOf(p.Type()))
+		if vc.d.sortOf(p.Type()) == "Slice" && fc.Opts["slice-offsets"] != "general" {
+			// WLOG: a slice parameter starts at offset 0 of its backing array (a slice is only a view; code that accesses
+			// it through the slice cannot observe the offset). Keeps index terms free of arithmetic, which matters for
+			// quantifier instantiation. Listed as an assumption.
+			a, l, c := sym("in."+p.Name()+".arr"), sym("in."+p.Name()+".len"), sym("in."+p.Name()+".cap")
+			vc.declare(a, "Int")
+			vc.declare(l, "Int")
+			vc.declare(c, "Int")
+			n = fmt.Sprintf("(mk-slice %s 0 %s %s)", a, l, c)
+			vc.note("slice parameters modelled at offset 0 of their backing array (WLOG; overlapping views at different offsets not modelled)")
+		} else {
+			vc.declare(n, vc.d.sortOf(p.Type()))
+		}
 		fr.vals[p] = []string{n}
 		pc = and(pc, vc.typeAssume(n, p.Type(), st))
 		if isRefLike(p.Type()) {
@@ -76,7 +88,7 @@ func (g *Gen) verifyFunc(fc *FuncContract) (*VC, error) {
 			if !ok {
 				return vc, fmt.Errorf("%s: ghostvar %s: 'empty' needs a map type", fc.Key, gv.Name)
 			}
-			init = fmt.Sprintf("((as const %s) %s)", vc.d.sortOf(ty), vc.d.zero(gm.val))
+			init = vc.d.constArray(vc.d.sortOf(gm.key), vc.d.sortOf(gm.val), vc.d.zero(gm.val))
 		} else {
 			fr.bindParams(env)
 			t, err := env.expr(gv.Init)
@@ -147,42 +159,50 @@ func (g *Gen) verifyFunc(fc *FuncContract) (*VC, error) {
 	if vc.failed != nil {
 		return vc, vc.failed
 	}
-	// postconditions at the merged return
-	penv := vc.newEnv(fc.PkgPath, rst)
-	penv.old = vc.entrySt
-	for i, p := range fn.Params {
-		penv.vars[sig.params[i].name] = tv{t: fr.vals[p][0], ty: p.Type()}
-	}
-	for _, fv := range fn.FreeVars {
-		if _, ok := fv.Type().Underlying().(*types.Pointer); ok {
-			penv.lazy[fv.Name()] = fr.locOf(fv)
-		} else {
-			penv.vars[fv.Name()] = tv{t: fr.v1(fv), ty: fv.Type()}
+	// postconditions, checked at every return point separately (small queries; the failing return is named)
+	_ = rst
+	_ = res
+	for ri, rp := range fr.rets {
+		penv := vc.newEnv(fc.PkgPath, rp.st)
+		penv.old = vc.entrySt
+		for i, p := range fn.Params {
+			penv.vars[sig.params[i].name] = tv{t: fr.vals[p][0], ty: p.Type()}
 		}
-	}
-	for gname, gt := range vc.ghostT {
-		penv.vars[gname] = tv{t: vc.stGet0(rst, "$g."+gname), ty: gt}
-	}
-	for i, r := range sig.results {
-		if i < len(res) {
-			t := tv{t: res[i][0], ty: r.ty}
-			penv.vars[r.name] = t
-			penv.vars[fmt.Sprintf("result%d", i)] = t
-			if i == 0 {
-				penv.vars["result"] = t
+		for _, fv := range fn.FreeVars {
+			if _, ok := fv.Type().Underlying().(*types.Pointer); ok {
+				penv.lazy[fv.Name()] = fr.locOf(fv)
+			} else {
+				penv.vars[fv.Name()] = tv{t: fr.v1(fv), ty: fv.Type()}
 			}
 		}
-	}
-	for _, e := range fc.Ensures {
-		t, err := penv.boolExpr(e.E)
-		if err != nil {
-			return vc, fmt.Errorf("%s: ensures %s: %v", fc.Key, e.Name, err)
+		for gname, gt := range vc.ghostT {
+			penv.vars[gname] = tv{t: vc.stGet0(rp.st, "$g."+gname), ty: gt}
 		}
-		vc.addObl(&Obligation{Name: e.Name, Kind: "ensures", PC: rpc, Goal: t, Src: e.Src})
-	}
-	if fc.HasMod && !fc.ModAll {
-		if err := vc.frameObligations(fr, fc, penv, rpc, rst); err != nil {
-			return vc, err
+		for i, r := range sig.results {
+			if i < len(rp.vals) {
+				t := tv{t: rp.vals[i][0], ty: r.ty}
+				penv.vars[r.name] = t
+				penv.vars[fmt.Sprintf("result%d", i)] = t
+				if i == 0 {
+					penv.vars["result"] = t
+				}
+			}
+		}
+		suffix := ""
+		if len(fr.rets) > 1 {
+			suffix = fmt.Sprintf("@ret%d", ri+1)
+		}
+		for _, e := range fc.Ensures {
+			t, err := penv.boolExpr(e.E)
+			if err != nil {
+				return vc, fmt.Errorf("%s: ensures %s: %v", fc.Key, e.Name, err)
+			}
+			vc.addObl(&Obligation{Name: e.Name + suffix, Kind: "ensures", PC: rp.pc, Goal: t, Src: e.Src})
+		}
+		if fc.HasMod && !fc.ModAll {
+			if err := vc.frameObligations(fr, fc, penv, rp.pc, rp.st, suffix); err != nil {
+				return vc, err
+			}
 		}
 	}
 	if len(fr.rets) > 0 {
@@ -192,7 +212,7 @@ func (g *Gen) verifyFunc(fc *FuncContract) (*VC, error) {
 }
 
 // frameObligations: everything outside the modifies set is unchanged for objects that existed at entry.
-func (vc *VC) frameObligations(fr *Frame, fc *FuncContract, penv *SpecEnv, rpc string, rst *State) error {
+func (vc *VC) frameObligations(fr *Frame, fc *FuncContract, penv *SpecEnv, rpc string, rst *State, suffix string) error {
 	var names []string
 	for k := range rst.m {
 		if strings.HasPrefix(k, "$") {
@@ -202,12 +222,12 @@ func (vc *VC) frameObligations(fr *Frame, fc *FuncContract, penv *SpecEnv, rpc s
 	}
 	sort.Strings(names)
 	if rst.havocked() {
-		vc.addObl(&Obligation{Name: "modifies:*", Kind: "modifies", PC: rpc, Goal: "false", Src: "function havocs the whole heap (call without frame) but declares a modifies clause"})
+		vc.addObl(&Obligation{Name: "modifies:*" + suffix, Kind: "modifies", PC: rpc, Goal: "false", Src: "function havocs the whole heap (call without frame) but declares a modifies clause"})
 		return nil
 	}
 	for _, h := range names {
 		if g := vc.frameGoal(h, rst.m[h]); g != "" {
-			vc.addObl(&Obligation{Name: "modifies:" + h, Kind: "modifies", PC: rpc, Goal: g, Src: "frame: " + h + " unchanged outside the modifies set"})
+			vc.addObl(&Obligation{Name: "modifies:" + h + suffix, Kind: "modifies", PC: rpc, Goal: g, Src: "frame: " + h + " unchanged outside the modifies set"})
 		}
 	}
 	return nil
@@ -239,6 +259,16 @@ func (fr *Frame) loopEnv(li *loopInfo, st *State) *SpecEnv {
 	for name, v := range fr.namedValuesAt(li) {
 		if _, shadow := env.vars[name]; !shadow {
 			env.vars[name] = tv{t: fr.v1(v), ty: v.Type()}
+		}
+	}
+	// address-taken locals (private allocs) by variable name
+	for a := range fr.privAlloc {
+		if a.Comment != "" {
+			if l, ok := fr.locs[a]; ok {
+				if _, shadow := env.vars[a.Comment]; !shadow {
+					env.lazy[a.Comment] = l
+				}
+			}
 		}
 	}
 	// enclosing and own header phis by variable name
